@@ -8,6 +8,7 @@ Literal mirror of
 (`v4_check`, `v4_check_header_auth`, `v4_check_presigned_url`, `v4_check_post_signature`).
 Text is `Bytes` (UTF-8 of the Rust `&str`). SHA-256 (`sha256hex`, already hex-encoded as the code's
 `hex_sha256`) and HMAC-SHA-256 (`hmac key msg`) are parameters; so are the secret-key table and the clock.
+State of the code: with repair d453cd3 (`extract_amz_date` / `extract_amz_content_sha256` parse `trim_ows(val)`).
 -/
 namespace S3V.SigV4
 
@@ -411,13 +412,27 @@ def extractFullBody (c : Ctx) : Except ErrCode Bytes :=
     | none => .error .MissingContentLength
     | some n => if c.body.length = n then .ok c.body else .error .IncompleteBody
 
-/-- `extract_amz_content_sha256` -/
+/-- the predicate of `trim_ows`: optional white space of a field value is SP and HTAB, nothing else -/
+def isOws (c : UInt8) : Bool := c = 32 || c = 9
+
+/-- `trim_ows` (d453cd3): `str::trim_matches(|c| c == ' ' || c == '\t')` -/
+def trimOws (s : Bytes) : Bytes := ((s.dropWhile isOws).reverse.dropWhile isOws).reverse
+
+/-- `extract_amz_content_sha256`: the value is parsed with its edge blanks removed (d453cd3) -/
 def extractContentSha (hs : List (Bytes × Bytes)) : Except ErrCode (Option ContentSha) :=
   match getUnique hs b!"x-amz-content-sha256" with
   | none => .ok none
-  | some v => match parseContentSha v with
+  | some v => match parseContentSha (trimOws v) with
     | some x => .ok (some x)
     | none => .error .XAmzContentSHA256Mismatch
+
+/-- `extract_amz_date`: the value is parsed with its edge blanks removed (d453cd3) -/
+def extractAmzDate (hs : List (Bytes × Bytes)) : Except ErrCode (Option AmzDate) :=
+  match getUnique hs b!"x-amz-date" with
+  | none => .ok none
+  | some v => match parseAmzDate (trimOws v) with
+    | some x => .ok (some x)
+    | none => .error .InvalidRequest
 
 /-- payload-mode dispatch of `v4_check_header_auth` -/
 def headerPayload (c : Ctx) (sha : Option ContentSha) : Except ErrCode Payload :=
@@ -467,22 +482,20 @@ def v4CheckHeaderAuth (sha256hex : Bytes → Bytes) (hmac : Bytes → Bytes → 
           else match look a.credential.accessKey with
             | none => .err .NotSignedUp
             | some secret =>
-              match getUnique c.hs b!"x-amz-date" with
-              | none => .err .InvalidRequest
-              | some dv =>
-                match parseAmzDate dv with
-                | none => .err .InvalidRequest
-                | some d =>
-                  if a.credential.date ≠ d.fmtDate then .err .AuthorizationHeaderMalformed
-                  else if signedHeaderMissing c a then .err .InvalidRequest
-                  else match headerPayload c sha with
-                  | .error e => .err e
-                  | .ok payload =>
-                    if headerSignature sha256hex hmac c a secret d payload ≠ a.signature then
-                      .err .SignatureDoesNotMatch
-                    else if sha = some .multipleChunks && c.decodedContentLength = none then
-                      .err .MissingContentLength
-                    else .accept a.credential.accessKey region service
+              match extractAmzDate c.hs with
+              | .error e => .err e
+              | .ok none => .err .InvalidRequest
+              | .ok (some d) =>
+                if a.credential.date ≠ d.fmtDate then .err .AuthorizationHeaderMalformed
+                else if signedHeaderMissing c a then .err .InvalidRequest
+                else match headerPayload c sha with
+                | .error e => .err e
+                | .ok payload =>
+                  if headerSignature sha256hex hmac c a secret d payload ≠ a.signature then
+                    .err .SignatureDoesNotMatch
+                  else if sha = some .multipleChunks && c.decodedContentLength = none then
+                    .err .MissingContentLength
+                  else .accept a.credential.accessKey region service
 
 /-- the headers `v4_check_presigned_url` selects (the list of `X-Amz-SignedHeaders` in the order given) -/
 def presignedSelection (c : Ctx) (p : Presigned) : List (Bytes × Bytes) :=
